@@ -80,6 +80,8 @@ def check_state(s, rng):
             return 'pressure_identity', False, 'J1/P1+J2/P2=%r but pf1+pf2-p=%r' % (lhs, rhs)
     # self-consistency when locally contractive
     yJ = J[0] / (J[0] + J[1])
+    L = 0.0 if s['mode'] in ('vac', 'press0') else math.inf
+    n_evals = pvo.__dict__['n_evals']
     if s['mode'] in ('temp', 'press') and 0 < y_last.p < 1:
         def G(y):
             kw = dict(last)
@@ -93,11 +95,17 @@ def check_state(s, rng):
             L = math.inf
         if L < 0.9 and abs(yJ - y_last.p) >= s['prec'] * 1.001 + 1e-15:
             return 'self_consistency', False, 'contraction factor %.3g but |y(J)-y_used| = %r >= precision %r' % (L, abs(yJ - y_last.p), s['prec'])
-    # scaling
+    # scaling.  Over the reals the scaled run has the same iterates (theorem); in binary64 they agree up to rounding, which a
+    # contraction keeps at rounding level but an expansive map amplifies, and a flipped exit test changes the result by
+    # O(precision): compared only where rounding cannot explain a difference (contraction factor < 0.9, same number of
+    # driving-force evaluations)
     k = gens.loguniform(rng, 1e-3, 1e3)
-    if 1e-6 <= k * P1 <= 1e3 and 1e-6 <= k * P2 <= 1e3:
+    if 1e-6 <= k * P1 <= 1e3 and 1e-6 <= k * P2 <= 1e3 and L < 0.9:
         try:
+            pvo.__dict__['n_evals'] = 0
             Jk = call(pvo, s, P1=k * P1, P2=k * P2)
+            if pvo.__dict__['n_evals'] != n_evals:
+                return s['mode'] + ':scaling_exit_test_flipped', True, ''
             if not (rel_close(Jk[0], k * J[0], 1e-9, 1e-12 * scale * k) and rel_close(Jk[1], k * J[1], 1e-9, 1e-12 * scale * k)):
                 return 'scaling', False, 'k=%r: J(kP)=%r, k J(P)=%r' % (k, Jk, (k * J[0], k * J[1]))
         except (ValueError, ZeroDivisionError):
